@@ -31,6 +31,7 @@ func checkC11(c *Check) {
 
 	c11BucketSet(c)
 	c11Wiring(c)
+	c11FreshPerKey(c)
 	c11Pairing(c)
 	c11NoCrash(c)
 	c11Staleness(c)
@@ -1605,4 +1606,151 @@ func isZeroStringDecl(info *types.Info, n ast.Node, v types.Object) bool {
 		return isC && sv == ""
 	}
 	return false
+}
+
+// ---------------------------------------------------------------------------
+// R8: a per-key scope counts per key only if every key has limiters of its own. The table (BucketSet) calls the
+// constructor it was given once per new key; what that constructor returns must be built inside it. A slice, struct or
+// limiter allocated outside the constructor and captured by it is the same object for every key: permits of one
+// source domain are counted against – and released into – another's.
+func c11FreshPerKey(c *Check) {
+	p := c.P
+	c.Rule("R8", "the constructor handed to a keyed limiter table builds its result from scratch on every call: of the variables it captures it only ranges over, measures, indexes or calls the configured constructor list – it never stores into, re-slices or returns captured state (one object shared by all keys)", 3)
+	n := 0
+	p.AllFuncs(p.ServerPkgs(), func(fi *FuncInfo) {
+		info := fi.Info()
+		body := fi.Decl.Body
+		for _, call := range callsIn(body) {
+			if !isCall(info, call, "~/internal/limits/limiters.NewBucketSet") || len(call.Args) < 1 {
+				continue
+			}
+			n++
+			c.SawFunc(fi.Name())
+			key := refName(fi.Obj) + ":table" + itoa(n)
+			lits, why := c11CtorLiterals(p, fi, info, call.Args[0], 0)
+			if len(lits) == 0 {
+				c.Hold("R8", key, call.Pos(), false, "undecided: the constructor is not a function literal the analysis can find ("+why+")")
+				continue
+			}
+			msg := ""
+			for _, fl := range lits {
+				if m := c11SharedCapture(p, info, fl); m != "" {
+					msg = m
+				}
+			}
+			c.Hold("R8", key, call.Pos(), msg == "", msg)
+		}
+	})
+}
+
+// c11CtorLiterals resolves an expression of function type to the function literals it can denote: a literal, a local
+// bound once to one, or a call of a function (declared, or a local literal) whose returns are such expressions.
+func c11CtorLiterals(p *Prog, fi *FuncInfo, info *types.Info, e ast.Expr, depth int) ([]*ast.FuncLit, string) {
+	if depth > 3 {
+		return nil, "too deep"
+	}
+	e = resolveLocal(info, fi.Decl.Body, e)
+	switch x := ast.Unparen(e).(type) {
+	case *ast.FuncLit:
+		return []*ast.FuncLit{x}, ""
+	case *ast.CallExpr:
+		var bodies []*ast.BlockStmt
+		var inner *FuncInfo = fi
+		switch f := ast.Unparen(resolveLocal(info, fi.Decl.Body, x.Fun)).(type) {
+		case *ast.FuncLit:
+			bodies = append(bodies, f.Body)
+		default:
+			if fn := callee(info, x); fn != nil {
+				if d := p.DeclOf(fn); d != nil && d.Decl.Body != nil {
+					bodies = append(bodies, d.Decl.Body)
+					inner = d
+				}
+			}
+		}
+		if len(bodies) == 0 {
+			return nil, "call of an unknown function"
+		}
+		var out []*ast.FuncLit
+		why := ""
+		for _, b := range bodies {
+			inspectNoLit(b, func(y ast.Node) bool {
+				if ret, ok := y.(*ast.ReturnStmt); ok && len(ret.Results) >= 1 {
+					ls, w := c11CtorLiterals(p, inner, inner.Info(), ret.Results[0], depth+1)
+					if len(ls) == 0 {
+						why = w
+					}
+					out = append(out, ls...)
+				}
+				return true
+			})
+		}
+		if why != "" {
+			return nil, why
+		}
+		return out, ""
+	}
+	return nil, "not a literal: " + exprStr(e)
+}
+
+// c11SharedCapture: a captured variable used other than as a list of constructors.
+func c11SharedCapture(p *Prog, info *types.Info, fl *ast.FuncLit) string {
+	msg := ""
+	var stack []ast.Node
+	ast.Inspect(fl.Body, func(n ast.Node) bool {
+		if n == nil {
+			stack = stack[:len(stack)-1]
+			return true
+		}
+		stack = append(stack, n)
+		id, ok := n.(*ast.Ident)
+		if !ok {
+			return true
+		}
+		v, isVar := info.Uses[id].(*types.Var)
+		if !isVar || v.IsField() || (v.Pkg() != nil && v.Parent() == v.Pkg().Scope()) {
+			return true
+		}
+		if v.Pos() >= fl.Pos() && v.Pos() < fl.End() {
+			return true // declared inside the constructor
+		}
+		switch v.Type().Underlying().(type) {
+		case *types.Basic:
+			return true // numbers, strings, durations: values, not shared objects
+		}
+		// the context of the use
+		var parent ast.Node
+		if len(stack) >= 2 {
+			parent = stack[len(stack)-2]
+		}
+		okUse := false
+		switch pn := parent.(type) {
+		case *ast.RangeStmt:
+			okUse = pn.X == ast.Expr(id)
+		case *ast.CallExpr:
+			if pn.Fun == ast.Expr(id) {
+				okUse = true // the captured constructor is called
+			} else if fid, isID := pn.Fun.(*ast.Ident); isID && (fid.Name == "len" || fid.Name == "cap") {
+				okUse = true
+			}
+		case *ast.IndexExpr:
+			// ctors[i] read (not on the left of an assignment)
+			if pn.X == ast.Expr(id) {
+				okUse = true
+				if len(stack) >= 3 {
+					if as, isAs := stack[len(stack)-3].(*ast.AssignStmt); isAs {
+						for _, l := range as.Lhs {
+							if l == ast.Expr(pn) {
+								okUse = false
+							}
+						}
+					}
+				}
+			}
+		}
+		if !okUse {
+			msg = "line " + itoa(p.Fset.Position(id.Pos()).Line) + ": the constructor uses captured variable " + id.Name + " as part of what it builds: that object is allocated once, outside the constructor, and is therefore the same for every key of the scope (a new key's bucket replaces / shares the limiters of all existing keys: limits are exceeded and permits are released into the wrong semaphore)"
+		}
+		return true
+	})
+	return msg
 }
